@@ -25,20 +25,23 @@
 
    Deviations.  The actions describe the CORRECT design.  Behaviour of the present code that
    departs from it is modelled by extra disjuncts guarded by `name \in Allowed`; they record the
-   name in `dev`.  Stage A checks the properties with Allowed = {}; stages B/C use the full
-   set so that an execution of the code is always explained, and report the property clauses
-   that the explanation violates (variable bad). A deviant disjunct is enabled only where
-   it is distinguishable from the correct one.                                              *)
+   name in `dev`.  Stage A checks the properties with Allowed = Forced = {}; stage B first learns
+   on a small graph (all deviations in Allowed) which of them the code under test has, then uses
+   graphs / trace runs with those in Forced, so that an execution of the code is always explained;
+   the property clauses that every explanation violates (variable bad) are reported. A deviant
+   disjunct is enabled only where it is distinguishable from the correct one.                *)
 EXTENDS Integers, Sequences, FiniteSets, TLC
 
 CONSTANTS FrontEnd,      \* "v2" | "legacy"
           NCalls,        \* call ids 1..NCalls, used in increasing order
           UserPrefixes,  \* prefixes user calls may name
+          UserVerbs,     \* verbs user calls may use (subset of Verbs)
           Routes,        \* sequence of prefixes declared with route() before connecting
           MaxConn,       \* number of Connect steps allowed
           MaxClock,
           ReplyKinds,    \* subset of AllReplyKinds
-          Allowed        \* subset of AllDevs
+          Allowed,       \* subset of AllDevs: deviations the code may or may not have (decided at the first point they show)
+          Forced         \* subset of AllDevs: deviations the code is known to have (taken wherever they show)
 
 AllReplyKinds == {"r200", "r400", "r403", "r503", "nack", "silence", "garbage", "vfail"}
 StatusKinds   == {"r200", "r400", "r403", "r503"}
@@ -69,15 +72,17 @@ VARIABLES clock,    \* wall clock (ms)
           semQ,     \* FIFO of calls waiting for it
           lastTs,   \* _last_command_timestamp
           cmds,     \* command Interests put on the wire: [verb, prefix, ts, fmt, call, conn]
-          replies,  \* per call: what the forwarder answered [k, body]
+          replies,  \* per call: what the forwarder answered [k, body] (cleared when the call finishes)
+          fin,      \* the exchange that finished last: [c, k, body] (c = 0: none yet)
           result,   \* per call: [k |-> "none"] | [k |-> "ret", v] | [k |-> "raised"]
           filt,     \* legacy: prefixes that currently have an Interest filter
           running,  \* call executing its synchronous section, 0 = none
-          dev,      \* deviations taken so far
+          dev,      \* deviations the code was seen to have
+          nodev,    \* deviations the code was seen not to have
           bad       \* property clauses violated so far (history variable)
 
 vars == <<clock, pend, up, conn, autoQ, autoCall, nauto, pc, vb, pf, wf, g, sem, semQ, lastTs, cmds,
-          replies, result, filt, running, dev, bad>>
+          replies, fin, result, filt, running, dev, nodev, bad>>
 
 NoReply == [k |-> "none", body |-> FALSE]
 NoResult == [k |-> "none", v |-> FALSE]
@@ -97,9 +102,9 @@ Init ==
   /\ g = [c \in Calls |-> 0]
   /\ sem = 0 /\ semQ = <<>> /\ lastTs = 0 - 1
   /\ cmds = <<>>
-  /\ replies = [c \in Calls |-> NoReply]
+  /\ replies = [c \in Calls |-> NoReply] /\ fin = [c |-> 0, k |-> "none", body |-> FALSE]
   /\ result = [c \in Calls |-> NoResult]
-  /\ filt = {} /\ running = 0 /\ dev = {} /\ bad = {}
+  /\ filt = {} /\ running = 0 /\ dev = {} /\ nodev = {} /\ bad = {}
 
 -----------------------------------------------------------------------------
 (* internal actions enabled with no section running *)
@@ -113,7 +118,8 @@ Quiescent == running = 0 /\ ~WakeSemEnabled /\ ~AutoNextEnabled /\ pend = 0
 InFlight == {c \in Calls : pc[c] = "sent"}
 OneAtATime == Cardinality(InFlight) <= 1
 TsStrictlyIncreasing == \A i \in 1..Len(cmds) : \A j \in 1..Len(cmds) : i < j => cmds[i].ts < cmds[j].ts
-SuccessIff200 == \A c \in Calls : (pc[c] = "done" /\ result[c].k = "ret") => (result[c].v <=> (replies[c].k = "r200"))
+\* judged when an exchange finishes (fin); Track accumulates the verdict over the behaviour
+SuccessIff200 == (fin.c # 0 /\ result[fin.c].k = "ret") => (result[fin.c].v <=> (fin.k = "r200"))
 NeverRaises == \A c \in Calls : result[c].k # "raised"
 CmdsOf(c) == {i \in 1..Len(cmds) : cmds[i].call = c}
 ExactlyOneCommand ==
@@ -146,19 +152,21 @@ Track == bad' = bad \cup BadNow'
 
 \* the application calls app.register(p) / app.unregister(p); d: see pend
 Call(c, v, p, w, d) ==
-  /\ Quiescent /\ up /\ Idle # {} /\ c = NextId /\ clock + d <= MaxClock
-  /\ v \in Verbs /\ p \in UserPrefixes
+  /\ Quiescent /\ up /\ clock + d <= MaxClock
+  /\ Cardinality(Idle) > Len(autoQ) + Len(Routes) * (MaxConn - conn)   \* bound: ids are kept for the auto-registrations still to come
+  /\ c = NextId
+  /\ v \in UserVerbs /\ p \in UserPrefixes
   /\ (w => (Legacy /\ v = "register" /\ p \notin filt))   \* a duplicate handler raises the documented ValueError: not generated
   /\ pc' = [pc EXCEPT ![c] = "start"]
   /\ vb' = [vb EXCEPT ![c] = v] /\ pf' = [pf EXCEPT ![c] = p] /\ wf' = [wf EXCEPT ![c] = w]
   /\ running' = c /\ pend' = d
-  /\ UNCHANGED <<clock, up, conn, autoQ, autoCall, nauto, g, sem, semQ, lastTs, cmds, replies, result, filt, dev>>
+  /\ UNCHANGED <<clock, up, conn, autoQ, autoCall, nauto, g, sem, semQ, lastTs, cmds, replies, fin, result, filt, dev, nodev>>
   /\ Track
 
 Tick ==
   /\ Quiescent /\ clock < MaxClock
   /\ clock' = clock + 1
-  /\ UNCHANGED <<pend, up, conn, autoQ, autoCall, nauto, pc, vb, pf, wf, g, sem, semQ, lastTs, cmds, replies, result, filt, running, dev>>
+  /\ UNCHANGED <<pend, up, conn, autoQ, autoCall, nauto, pc, vb, pf, wf, g, sem, semQ, lastTs, cmds, replies, fin, result, filt, running, dev, nodev>>
   /\ Track
 
 \* 1 ms passes on the loop clock (and so on the wall clock): the call sleeping in the guard loop resumes
@@ -167,7 +175,7 @@ Wake(c, d) ==
   /\ clock' = clock + 1
   /\ pc' = [pc EXCEPT ![c] = "woken"]
   /\ running' = c /\ pend' = d
-  /\ UNCHANGED <<up, conn, autoQ, autoCall, nauto, vb, pf, wf, g, sem, semQ, lastTs, cmds, replies, result, filt, dev>>
+  /\ UNCHANGED <<up, conn, autoQ, autoCall, nauto, vb, pf, wf, g, sem, semQ, lastTs, cmds, replies, fin, result, filt, dev, nodev>>
   /\ Track
 
 \* the forwarder answers the outstanding command of call c (or stays silent until its lifetime ends)
@@ -175,19 +183,21 @@ FwdReply(c, k, b, d) ==
   /\ Quiescent /\ pc[c] = "sent"
   /\ k \in ReplyKinds /\ b \in BOOLEAN /\ (k \notin StatusKinds => b = FALSE)
   /\ clock + (IF k = "silence" THEN 1 ELSE 0) + d <= MaxClock
+  /\ (k = "silence" => InFlight = {c})      \* bound: lifetimes of commands sent together would end together
   /\ clock' = IF k = "silence" THEN clock + 1 ELSE clock
   /\ replies' = [replies EXCEPT ![c] = [k |-> k, body |-> b]]
   /\ pc' = [pc EXCEPT ![c] = "replied"]
   /\ running' = c /\ pend' = d
-  /\ UNCHANGED <<up, conn, autoQ, autoCall, nauto, vb, pf, wf, g, sem, semQ, lastTs, cmds, result, filt, dev>>
+  /\ UNCHANGED <<up, conn, autoQ, autoCall, nauto, vb, pf, wf, g, sem, semQ, lastTs, cmds, fin, result, filt, dev, nodev>>
   /\ Track
 
 \* main_loop: face opened, the starting task registers the declared routes one after the other
 Connect(d) ==
   /\ Quiescent /\ ~up /\ conn < MaxConn /\ clock + d <= MaxClock
+  /\ Cardinality(Idle) >= Len(Routes)
   /\ up' = TRUE /\ conn' = conn + 1 /\ autoQ' = Routes /\ pend' = d
   /\ (IF Legacy THEN sem' = 0 /\ semQ' = <<>> ELSE UNCHANGED <<sem, semQ>>)   \* legacy main_loop makes a new semaphore
-  /\ UNCHANGED <<clock, autoCall, nauto, pc, vb, pf, wf, g, lastTs, cmds, replies, result, filt, running, dev>>
+  /\ UNCHANGED <<clock, autoCall, nauto, pc, vb, pf, wf, g, lastTs, cmds, replies, fin, result, filt, running, dev, nodev>>
   /\ Track
 
 \* the face goes down; bound: only with no call in progress
@@ -196,7 +206,7 @@ Disconnect ==
   /\ \A c \in Calls : pc[c] \in {"idle", "done"}
   /\ up' = FALSE
   /\ filt' = {}                                             \* legacy _clean_up clears the handler table
-  /\ UNCHANGED <<clock, pend, conn, autoQ, autoCall, nauto, pc, vb, pf, wf, g, sem, semQ, lastTs, cmds, replies, result, running, dev>>
+  /\ UNCHANGED <<clock, pend, conn, autoQ, autoCall, nauto, pc, vb, pf, wf, g, sem, semQ, lastTs, cmds, replies, fin, result, running, dev, nodev>>
   /\ Track
 
 -----------------------------------------------------------------------------
@@ -211,84 +221,98 @@ AutoNext ==
        /\ wf' = [wf EXCEPT ![c] = Legacy]
        /\ autoCall' = c /\ running' = c
   /\ autoQ' = Tail(autoQ) /\ nauto' = nauto + 1
-  /\ UNCHANGED <<clock, pend, up, conn, g, sem, semQ, lastTs, cmds, replies, result, filt, dev>>
+  /\ UNCHANGED <<clock, pend, up, conn, g, sem, semQ, lastTs, cmds, replies, fin, result, filt, dev, nodev>>
   /\ Track
+
+\* A deviation point. app = "defect d would show here". The code either has a defect or not, so the
+\* choice made at the first point where d shows is kept for the rest of the behaviour (dev / nodev).
+Dev(d, app) == app /\ d \in (Allowed \cup Forced) /\ d \notin nodev /\ dev' = dev \cup {d} /\ UNCHANGED nodev
+NoDev(d, app) == /\ ~(app /\ (d \in dev \/ d \in Forced))
+                 /\ nodev' = IF app /\ d \in Allowed THEN nodev \cup {d} ELSE nodev
+                 /\ UNCHANGED dev
 
 \* entry of the coroutine up to the semaphore: legacy handler table bookkeeping
 Begin(c) ==
   /\ running = c /\ pc[c] = "start"
-  /\ \/ /\ pc' = [pc EXCEPT ![c] = "wantSem"]
+  /\ LET app == Legacy /\ vb[c] = "unregister" /\ pf[c] \notin filt IN
+     \/ /\ NoDev("LegacyUnregKeyError", app)
+        /\ pc' = [pc EXCEPT ![c] = "wantSem"]
         /\ filt' = IF Legacy /\ vb[c] = "register" /\ wf[c] THEN filt \cup {pf[c]}
                    ELSE IF Legacy /\ vb[c] = "unregister" THEN filt \ {pf[c]} ELSE filt
-        /\ UNCHANGED <<result, running, dev>>
+        /\ UNCHANGED <<result, running>>
      \/ \* DEVIATION: legacy unregister does `del self._prefix_tree[name]` and raises KeyError when no handler was set
-        /\ "LegacyUnregKeyError" \in Allowed /\ Legacy /\ vb[c] = "unregister" /\ pf[c] \notin filt
+        /\ Dev("LegacyUnregKeyError", app)
         /\ result' = [result EXCEPT ![c] = Raised]
         /\ pc' = [pc EXCEPT ![c] = "done"]
-        /\ running' = 0 /\ dev' = dev \cup {"LegacyUnregKeyError"}
+        /\ running' = 0
         /\ UNCHANGED filt
-  /\ UNCHANGED <<clock, pend, up, conn, autoQ, autoCall, nauto, vb, pf, wf, g, sem, semQ, lastTs, cmds, replies>>
+  /\ UNCHANGED <<clock, pend, up, conn, autoQ, autoCall, nauto, vb, pf, wf, g, sem, semQ, lastTs, cmds, replies, fin>>
   /\ Track
 
 \* `async with self._prefix_register_semaphore` (asyncio.Semaphore is FIFO-fair)
 Acquire(c) ==
   /\ running = c /\ pc[c] = "wantSem"
-  /\ \/ /\ sem = 0 /\ semQ = <<>>
+  /\ LET app == Legacy /\ vb[c] = "unregister" IN
+     \/ /\ NoDev("LegacyUnregNoSem", app)
+        /\ sem = 0 /\ semQ = <<>>
         /\ sem' = c /\ pc' = [pc EXCEPT ![c] = "acquired"]
-        /\ UNCHANGED <<semQ, running, dev>>
-     \/ /\ ~(sem = 0 /\ semQ = <<>>)
+        /\ UNCHANGED <<semQ, running>>
+     \/ /\ NoDev("LegacyUnregNoSem", app)
+        /\ ~(sem = 0 /\ semQ = <<>>)
         /\ semQ' = Append(semQ, c) /\ pc' = [pc EXCEPT ![c] = "waitingSem"] /\ running' = 0
-        /\ UNCHANGED <<sem, dev>>
+        /\ UNCHANGED sem
      \/ \* DEVIATION: legacy unregister does not take the semaphore at all
-        /\ "LegacyUnregNoSem" \in Allowed /\ Legacy /\ vb[c] = "unregister"
-        /\ pc' = [pc EXCEPT ![c] = "acquired"] /\ dev' = dev \cup {"LegacyUnregNoSem"}
+        /\ Dev("LegacyUnregNoSem", app)
+        /\ pc' = [pc EXCEPT ![c] = "acquired"]
         /\ UNCHANGED <<sem, semQ, running>>
-  /\ UNCHANGED <<clock, pend, up, conn, autoQ, autoCall, nauto, vb, pf, wf, g, lastTs, cmds, replies, result, filt>>
+  /\ UNCHANGED <<clock, pend, up, conn, autoQ, autoCall, nauto, vb, pf, wf, g, lastTs, cmds, replies, fin, result, filt>>
   /\ Track
 
 \* the semaphore was released: its first waiter resumes
 AcquireWake(c) ==
   /\ WakeSemEnabled /\ c = Head(semQ) /\ pc[c] = "waitingSem"
   /\ sem' = c /\ semQ' = Tail(semQ) /\ pc' = [pc EXCEPT ![c] = "acquired"] /\ running' = c
-  /\ UNCHANGED <<clock, pend, up, conn, autoQ, autoCall, nauto, vb, pf, wf, g, lastTs, cmds, replies, result, filt, dev>>
+  /\ UNCHANGED <<clock, pend, up, conn, autoQ, autoCall, nauto, vb, pf, wf, g, lastTs, cmds, replies, fin, result, filt, dev, nodev>>
   /\ Track
 
 \* guard: now = timestamp(); proceed only if now > _last_command_timestamp
 ReadClock(c) ==
   /\ running = c /\ pc[c] \in {"acquired", "woken"}
-  /\ \/ /\ clock > lastTs
+  /\ LET app == Legacy /\ clock <= lastTs IN
+     \/ /\ NoDev("LegacyNoGuard", app)
+        /\ clock > lastTs
         /\ lastTs' = clock /\ g' = [g EXCEPT ![c] = clock] /\ pc' = [pc EXCEPT ![c] = "guardOk"]
-        /\ UNCHANGED dev
-     \/ /\ clock <= lastTs
+     \/ /\ NoDev("LegacyNoGuard", app)
+        /\ clock <= lastTs
         /\ pc' = [pc EXCEPT ![c] = "guardFail"]
-        /\ UNCHANGED <<lastTs, g, dev>>
+        /\ UNCHANGED <<lastTs, g>>
      \/ \* DEVIATION: the legacy front-end has no guard; the timestamp is whatever the clock shows
-        /\ "LegacyNoGuard" \in Allowed /\ Legacy /\ clock <= lastTs
+        /\ Dev("LegacyNoGuard", app)
         /\ g' = [g EXCEPT ![c] = clock] /\ pc' = [pc EXCEPT ![c] = "guardOk"]
-        /\ dev' = dev \cup {"LegacyNoGuard"}
         /\ UNCHANGED lastTs
-  /\ UNCHANGED <<clock, pend, up, conn, autoQ, autoCall, nauto, vb, pf, wf, sem, semQ, cmds, replies, result, filt, running>>
+  /\ UNCHANGED <<clock, pend, up, conn, autoQ, autoCall, nauto, vb, pf, wf, sem, semQ, cmds, replies, fin, result, filt, running>>
   /\ Track
 
 \* await asyncio.sleep(0.001)
 Sleep(c) ==
   /\ running = c /\ pc[c] = "guardFail"
   /\ pc' = [pc EXCEPT ![c] = "sleeping"] /\ running' = 0
-  /\ UNCHANGED <<clock, pend, up, conn, autoQ, autoCall, nauto, vb, pf, wf, g, sem, semQ, lastTs, cmds, replies, result, filt, dev>>
+  /\ UNCHANGED <<clock, pend, up, conn, autoQ, autoCall, nauto, vb, pf, wf, g, sem, semQ, lastTs, cmds, replies, fin, result, filt, dev, nodev>>
   /\ Track
 
 \* build, sign and send the command Interest; the pending tick (if any) falls before the signer runs
 Send(c) ==
   /\ running = c /\ pc[c] = "guardOk"
   /\ clock' = clock + pend /\ pend' = 0
-  /\ \/ /\ cmds' = Append(cmds, [verb |-> vb[c], prefix |-> pf[c], ts |-> g[c], fmt |-> FrontEnd, call |-> c, conn |-> conn])
-        /\ UNCHANGED dev
+  /\ LET app == ~Legacy /\ clock' # g[c]
+         cmd(t) == [verb |-> vb[c], prefix |-> pf[c], ts |-> t, fmt |-> FrontEnd, call |-> c, conn |-> conn] IN
+     \/ /\ NoDev("V2TwoReads", app)
+        /\ cmds' = Append(cmds, cmd(g[c]))
      \/ \* DEVIATION: v2 signer reads the clock again instead of using the guard's reading
-        /\ "V2TwoReads" \in Allowed /\ ~Legacy /\ clock' # g[c]
-        /\ cmds' = Append(cmds, [verb |-> vb[c], prefix |-> pf[c], ts |-> clock', fmt |-> FrontEnd, call |-> c, conn |-> conn])
-        /\ dev' = dev \cup {"V2TwoReads"}
+        /\ Dev("V2TwoReads", app)
+        /\ cmds' = Append(cmds, cmd(clock'))
   /\ pc' = [pc EXCEPT ![c] = "sent"] /\ running' = 0
-  /\ UNCHANGED <<up, conn, autoQ, autoCall, nauto, vb, pf, wf, g, sem, semQ, lastTs, replies, result, filt>>
+  /\ UNCHANGED <<up, conn, autoQ, autoCall, nauto, vb, pf, wf, g, sem, semQ, lastTs, replies, fin, result, filt>>
   /\ Track
 
 \* the awaited express returns or raises; the result is computed; the semaphore is released
@@ -296,36 +320,40 @@ Finish(c) ==
   /\ running = c /\ pc[c] = "replied"
   /\ LET k == replies[c].k
          b == replies[c].body
+         appU == vb[c] = "unregister" /\ k \in DataKinds \ {"r200"}
+         appB == vb[c] = "register" /\ k \in StatusKinds /\ ~b
+         appG == vb[c] = "register" /\ k = "garbage"
+         d == IF appU THEN "UnregAnyData" ELSE IF appB THEN "RegRaisesNoBody" ELSE "RegRaisesGarbage"
          raise == /\ result' = [result EXCEPT ![c] = Raised]
                   /\ autoQ' = IF c = autoCall THEN <<>> ELSE autoQ    \* an exception ends the starting task
-     IN \/ /\ result' = [result EXCEPT ![c] = Ret(k = "r200")]
-           /\ UNCHANGED <<dev, autoQ>>
+     IN \/ /\ NoDev(d, appU \/ appB \/ appG)
+           /\ result' = [result EXCEPT ![c] = Ret(k = "r200")]
+           /\ UNCHANGED autoQ
         \/ \* DEVIATION: unregister never parses the status; any Data means success
-           /\ "UnregAnyData" \in Allowed /\ vb[c] = "unregister" /\ k \in DataKinds \ {"r200"}
-           /\ result' = [result EXCEPT ![c] = Ret(TRUE)]
-           /\ dev' = dev \cup {"UnregAnyData"} /\ UNCHANGED autoQ
+           /\ Dev("UnregAnyData", appU)
+           /\ result' = [result EXCEPT ![c] = Ret(TRUE)] /\ UNCHANGED autoQ
         \/ \* DEVIATION: parse_response raises AttributeError on a ControlResponse without body; register does not catch it
-           /\ "RegRaisesNoBody" \in Allowed /\ vb[c] = "register" /\ k \in StatusKinds /\ ~b
-           /\ raise /\ dev' = dev \cup {"RegRaisesNoBody"}
+           /\ Dev("RegRaisesNoBody", appB) /\ raise
         \/ \* DEVIATION: content that is not a ControlResponse makes parse_response raise; register does not catch it
-           /\ "RegRaisesGarbage" \in Allowed /\ vb[c] = "register" /\ k = "garbage"
-           /\ raise /\ dev' = dev \cup {"RegRaisesGarbage"}
+           /\ Dev("RegRaisesGarbage", appG) /\ raise
   /\ pc' = [pc EXCEPT ![c] = "done"]
   /\ sem' = IF sem = c THEN 0 ELSE sem
   /\ autoCall' = IF c = autoCall THEN 0 ELSE autoCall
   /\ running' = 0
-  /\ UNCHANGED <<clock, pend, up, conn, nauto, vb, pf, wf, g, semQ, lastTs, cmds, replies, filt>>
+  /\ fin' = [c |-> c, k |-> replies[c].k, body |-> replies[c].body]
+  /\ replies' = [replies EXCEPT ![c] = NoReply]
+  /\ UNCHANGED <<clock, pend, up, conn, nauto, vb, pf, wf, g, semQ, lastTs, cmds, filt>>
   /\ Track
 
 \* no second clock read happened in this run: the pending tick simply elapses
 EndRun ==
   /\ EndRunEnabled
   /\ clock' = clock + pend /\ pend' = 0
-  /\ UNCHANGED <<up, conn, autoQ, autoCall, nauto, pc, vb, pf, wf, g, sem, semQ, lastTs, cmds, replies, result, filt, running, dev>>
+  /\ UNCHANGED <<up, conn, autoQ, autoCall, nauto, pc, vb, pf, wf, g, sem, semQ, lastTs, cmds, replies, fin, result, filt, running, dev, nodev>>
   /\ Track
 
 -----------------------------------------------------------------------------
-Env == \/ \E c \in Calls, v \in Verbs, p \in UserPrefixes, w \in BOOLEAN, d \in 0..1 : Call(c, v, p, w, d)
+Env == \/ \E c \in Calls, v \in UserVerbs, p \in UserPrefixes, w \in BOOLEAN, d \in 0..1 : Call(c, v, p, w, d)
        \/ Tick
        \/ \E c \in Calls, d \in 0..1 : Wake(c, d)
        \/ \E c \in Calls, k \in ReplyKinds, b \in BOOLEAN, d \in 0..1 : FwdReply(c, k, b, d)
@@ -341,7 +369,7 @@ TypeOK ==
   /\ clock \in 0..MaxClock /\ pend \in 0..1 /\ running \in 0..NCalls /\ sem \in 0..NCalls
   /\ \A c \in Calls : pc[c] \in {"idle", "start", "wantSem", "waitingSem", "acquired", "guardOk", "guardFail",
                                  "sleeping", "woken", "sent", "replied", "done"}
-  /\ dev \subseteq Allowed
+  /\ dev \subseteq (Allowed \cup Forced) /\ nodev \subseteq Allowed /\ dev \cap nodev = {}
 
 \* the stimuli are guarded so that the clock stays inside the bound
 ClockBound == clock + pend <= MaxClock
@@ -350,6 +378,6 @@ ClockBound == clock + pend <= MaxClock
 W_Waiting == ~(Len(semQ) >= 2)
 W_Slept == ~(\E c \in Calls : pc[c] = "woken")
 W_TwoCmds == ~(Len(cmds) >= 2 /\ \E c \in Calls : pc[c] = "done" /\ result[c] = Ret(TRUE))
-W_FailNack == ~(\E c \in Calls : pc[c] = "done" /\ replies[c].k = "nack" /\ result[c] = Ret(FALSE))
+W_FailNack == ~(fin.c # 0 /\ fin.k = "nack" /\ result[fin.c] = Ret(FALSE))
 W_Reconnect == ~(conn = 2 /\ Quiescent /\ AutoDone(2) /\ Len(cmds) >= 2 * Len(Routes) /\ Len(Routes) > 0)
 =============================================================================
